@@ -123,7 +123,7 @@ Definition write_reject (o : options) (p : patch) (rejected : nat) (h : hunk) : 
     Ok ((if Nat.eqb rejected 0 then write_patch_header_as_unified p else []) ++ write_hunk_as_unified h)
   else
     do t <- write_hunk_as_context h;
-    Ok ((if Nat.eqb rejected 0 then write_patch_header_as_context p else []) ++ t).
+    Ok ((if Nat.eqb rejected 0 then write_patch_header_as_context p else bs "***************" ++ [10%N]) ++ t).
 
 Definition shift_hunk (h : hunk) (d : Z) : hunk :=
   mkHunk (mkRange (sadd (rstart (oldr h)) d) (rcount (oldr h))) (mkRange (sadd (rstart (newr h)) d) (rcount (newr h))) (body h).
